@@ -137,3 +137,41 @@ def run(ctx, res):
                        "code-point and UTF-16 columns coincide)",
                        "TLC integers are 32-bit: the VLQ clause is checked up to |n| < 2^30, not at the isize boundary",
                        "coverage for an operation / fragment: at least one of its declaring identifiers (result type, variables type, document constant) is mapped"]
+
+
+def selftest(ctx):
+    """Binding demonstration: corrupt one base64 digit of a recorded mappings string / one sources entry / one VLQ digit; each must be rejected."""
+    import copy
+    vlib.build_harness()
+    vlib.build_cli()
+    c = make_case(ctx, 0)
+    vlib.write_ndjson(ctx.path("cases.ndjson"), [c])
+    vlib.run_harness(["typegen", vlib.CLI_BIN, ctx.path("cases.ndjson"), ctx.path("events.ndjson"), ctx.path("proj"), "1"])
+    e = vlib.read_ndjson(ctx.path("events.ndjson"))[0]
+    for k in ("scalars", "scalarTexts", "resolversTs"):
+        e.pop(k, None)
+    a = copy.deepcopy(e)
+    mp = a["maps"][0]["map"]["mappings"]
+    # the first 4-digit segment (all fields single digits): its original-column delta gets +1, so it and the segments after it on that
+    # source line point one column past their tokens
+    B64 = "ABCDEFGHIJKLMNOPQRSTUVWXYZabcdefghijklmnopqrstuvwxyz0123456789+/"
+    start = 0
+    for k in range(len(mp) + 1):
+        if k == len(mp) or mp[k] in (44, 59):
+            seg = mp[start:k]
+            if len(seg) == 4 and all(B64.index(chr(c)) < 32 for c in seg) and B64.index(chr(seg[3])) % 2 == 0 and B64.index(chr(seg[3])) < 28:
+                mp[start + 3] = ord(B64[B64.index(chr(seg[3])) + 2])
+                break
+            start = k + 1
+    a["id"] = "mut-mappings"
+    b = copy.deepcopy(e)
+    b["maps"][0]["map"]["sources"][0] = ["nowhere", "x.graphql"]
+    b["id"] = "mut-sources"
+    v = {"ev": "Vlq", "id": "mut-vlq", "nums": [5, 100], "digits": [[75], [111, 71]]}      # 100 is "oG"; "oH" would be 116
+    v["digits"][1][1] = 72
+    o = vlib.validate_trace("Trace_C06", "Trace_C06.cfg", [a, b, v], workdir=ctx.work, nshards=1)
+    rejected = {i["id"] for i in o.items}
+    ok = rejected == {"mut-mappings", "mut-sources", "mut-vlq"}
+    print("SELFTEST C06: 3 corrupted records, rejected %s -> %s" % (sorted(rejected), "ok" if ok else "FAILED"))
+    ctx.cleanup()
+    return 0 if ok else 2
